@@ -201,8 +201,9 @@ def _install(model, subscribe, published):
         m.twins = {
             # (two of them carry as descriptive name what is the KEY of another statistic of the model)
             "c": SimCounter("cnt-b", "per", sim, producer=m.prod["c"], event_type=StatEvents.DATA_EVENT),
-            "t": SimTally("tal-b", "tally", sim, producer=m.prod["t"], event_type=_custom_type()),
-            "w": SimWeightedTally("wt-b", "weighted", sim, producer=m.prod["w"],
+            # (a key is any string: this one ends with a blank and the next one starts with a tab)
+            "t": SimTally("tal-b ", "tally", sim, producer=m.prod["t"], event_type=_custom_type()),
+            "w": SimWeightedTally("\twt-b", "weighted", sim, producer=m.prod["w"],
                                   event_type=StatEvents.WEIGHT_DATA_EVENT),
             "p": SimPersistent("per-b", "cnt", sim, producer=m.prod["p"],
                                event_type=StatEvents.TIMESTAMP_DATA_EVENT),
@@ -374,6 +375,12 @@ def run_case(case):
         for _ in range(3):
             if h.sim.run_state != RunState.ENDED:
                 errs.append(h.run_piece(["start"]))
+        for tw in h.model.twins.values():
+            try:
+                if h.model.get_output_statistic(tw.key) is not tw or h.model.output_statistics().get(tw.key) is not tw:
+                    out.fail("output-statistic-identity-at-end", repr(tw.key))
+            except Exception as e:
+                out.fail("output-statistic-missing-at-end", [repr(tw.key), repr(e)])
         for key, name in (("c", "cnt"), ("t", "tal"), ("w", "wt"), ("p", "per")):
             try:
                 if h.model.get_output_statistic(name) is not h.model.stats[key] or \
